@@ -63,6 +63,12 @@ func observeDecode(tp *onnx.TensorProto) (obs string) {
 
 // the same proto as the only initializer of a model whose declared output is that initializer:
 // NewModelFromBytes(proto.Marshal(...)) then Run with no inputs
+var loadCounter = 0
+
+// the proto as ONE OF THREE initializers (position rotating; the two others are well-formed) of a model
+// whose declared output is that initializer. The model is first built once from the ModelProto object
+// (gonnx.NewModel), which must leave the proto as it was; the judged load is NewModelFromBytes of the
+// re-marshalled proto, then Run.
 func observeLoad(tp *onnx.TensorProto) (obs string) {
 	defer func() {
 		if r := recover(); r != nil {
@@ -71,12 +77,19 @@ func observeLoad(tp *onnx.TensorProto) (obs string) {
 	}()
 	tp2 := proto.Clone(tp).(*onnx.TensorProto)
 	tp2.Name = "w"
+	good := func(n string) *onnx.TensorProto {
+		return &onnx.TensorProto{Name: n, Dims: []int64{2}, DataType: 1, RawData: []byte{0, 0, 128, 63, 0, 0, 0, 64}}
+	}
+	inits := []*onnx.TensorProto{good("g0"), good("g1")}
+	pos := loadCounter % 3
+	loadCounter++
+	inits = append(inits[:pos], append([]*onnx.TensorProto{tp2}, inits[pos:]...)...)
 	mp := &onnx.ModelProto{
 		IrVersion:   7,
 		OpsetImport: []*onnx.OperatorSetIdProto{{Version: 13}},
 		Graph: &onnx.GraphProto{
 			Name:        "g",
-			Initializer: []*onnx.TensorProto{tp2},
+			Initializer: inits,
 			Output:      []*onnx.ValueInfoProto{{Name: "w"}},
 		},
 	}
@@ -84,13 +97,47 @@ func observeLoad(tp *onnx.TensorProto) (obs string) {
 	if err != nil {
 		return "(OErr EOther)"
 	}
-	m, err := gonnx.NewModelFromBytes(b)
+	func() {
+		defer func() { recover() }()
+		gonnx.NewModel(mp)
+	}()
+	b2, err := proto.Marshal(mp)
+	if err != nil || string(b2) != string(b) {
+		return "OPanic" // building a Model consumed or altered the caller's proto
+	}
+	// the same model declaring a well-formed initializer as its output instead: it must load and run
+	// exactly when the judged one does (a malformed initializer may not be dropped silently)
+	mp.Graph.Output = []*onnx.ValueInfoProto{{Name: "g0"}}
+	b3, _ := proto.Marshal(mp)
+	otherRuns := func() (ok bool) {
+		defer func() {
+			if r := recover(); r != nil {
+				ok = false
+			}
+		}()
+		m3, err := gonnx.NewModelFromBytes(b3)
+		if err != nil {
+			return false
+		}
+		_, err = m3.Run(gonnx.Tensors{})
+		return err == nil
+	}()
+	m, err := gonnx.NewModelFromBytes(b2)
 	if err != nil {
+		if otherRuns {
+			return "OPanic"
+		}
 		return "(OErr " + ekind(err) + ")"
 	}
 	out, err := m.Run(gonnx.Tensors{})
 	if err != nil {
+		if otherRuns {
+			return "OPanic" // refused only when it is the output: otherwise silently dropped
+		}
 		return "(OErr " + ekind(err) + ")"
+	}
+	if !otherRuns {
+		return "OPanic"
 	}
 	return "(OOk [" + tval(out["w"]) + "])"
 }
@@ -230,7 +277,7 @@ func genC12(dir, tier string, seed int64) {
 	cwA := newCaseWriter(dir, "C12_decode", hdr, opFooter,
 		"onnx.TensorFromProto on generated TensorProtos: 11 element types x {typed field, raw little-endian bytes} x shapes of rank 0..4 (extents 1..3) x element bit patterns (extremes, negatives, NaN payloads incl. signalling, -0, random); payload length perturbed (short by a byte / an element, long by a byte / an element, empty); dims with a zero or negative entry or one entry off; every other data_type code 0..20 and 99 with each typed field or raw populated or nothing populated; NaN payloads compared bit for bit", false, 500)
 	cwB := newCaseWriter(dir, "C12_load", hdr, opFooter,
-		"the same protos as the only initializer of a marshalled model whose declared output is that initializer: NewModelFromBytes(proto.Marshal(m)) then Run with no inputs", false, 500)
+		"the same protos as one of three initializers (first, middle or last; the others well-formed) of a model whose declared output is that initializer: the model is first built once with gonnx.NewModel(mp), which must leave the proto byte-identical; then NewModelFromBytes(proto.Marshal(mp)) and Run with no inputs; the same model declaring one of the well-formed initializers as its output must load and run exactly when this one does (reported as a panic-class outcome otherwise)", false, 500)
 	cwC := newCaseWriter(dir, "C12_constant", hdr, opFooter,
 		"the same protos as the `value` attribute of a Constant node (node name, output name and graph identical in every model) whose result is the declared output: NewModelFromBytes then Run", false, 500)
 	emit := func(tp *onnx.TensorProto, tag string) {
